@@ -217,6 +217,10 @@ def t3_cases(res, exprs):
         if rec[0] == "ga":
             _, pre, got, whole = rec
             e_ = f"let m := {_mesh_lit(pre)} in listZ_eqb (get_artifacts m) {C.zlist(got)} && listlistZ_eqb (artefacts m) {C.zlistlist(whole['groups'])}"
+            if whole["groups"]:
+                # the premises of theorem C15_contraction_leaves_no_artefact_vertex_in_a_cell on the state the first contraction starts from
+                e_ += f" && t3_hyps m {C.zlist(whole['groups'][0])}"
+                res.count("premises of the contraction theorem (t3_hyps) evaluated on a recorded state")
             if whole["final"] is not None:
                 e_ += f" && mesh_eqb (clean_up m) {_mesh_lit(whole['final'])}"
                 res.count("whole clean-up pass (all contractions of a parse) against Model/SkeletonT3.v")
